@@ -287,10 +287,27 @@ def skipBlank (s : Str) : Str := s.dropWhile isBlank
 def plainChar (q : Char) (c : Char) : Bool :=
   c ≠ q && c ≠ '\\' && c.toNat ≥ 32 && c.toNat ≠ 127
 
-/-- a number literal of Python source: optional sign, then `0+ | [1-9][0-9]* | digits "." digits?
-    | "." digits`; `none` = not in the modelled class (this includes the forms Python rejects,
-    e.g. leading zeros, and the ones it accepts but the model does not: exponents, underscores,
-    other bases, complex) -/
+/-- optional exponent of a float literal: `none` = malformed, `some (none, _)` = no exponent -/
+def litExponent (s : Str) : Option (Option Int × Str) :=
+  match s with
+  | c :: r =>
+    if c = 'e' ∨ c = 'E' then
+      let (eneg, r1) := match r with
+        | '+' :: t => (false, t)
+        | '-' :: t => (true, t)
+        | _ => (false, r)
+      let d := r1.takeWhile isDigit
+      if d.isEmpty then none                      -- "1e", "1e+": SyntaxError
+      else
+        let e : Int := natOfDigits (d.map digitVal)
+        some (some (if eneg then -e else e), r1.dropWhile isDigit)
+    else some (none, s)
+  | [] => some (none, [])
+
+/-- a number literal of Python source: optional sign, then an integer `0+ | [1-9][0-9]*` or a float
+    `(digits "." digits? | "." digits | digits exponent)` with an optional exponent; `none` = not in
+    the modelled class (this includes the forms Python rejects, e.g. integers with leading zeros, and
+    the ones it accepts but the model does not: underscores, other bases, complex) -/
 def numberLit (s : Str) : Option (Rat × Str) :=
   let (neg, u) := match s with
     | '+' :: r => (false, r)
@@ -304,13 +321,24 @@ def numberLit (s : Str) : Option (Rat × Str) :=
     let d2 := r2.takeWhile isDigit
     let r3 := r2.dropWhile isDigit
     if d1.isEmpty && d2.isEmpty then none
-    else some (sign ((natOfDigits (d1.map digitVal) : Rat)
-                     + (natOfDigits (d2.map digitVal) : Rat) / (10 : Rat) ^ d2.length), r3)
+    else
+      let m : Rat := (natOfDigits (d1.map digitVal) : Rat)
+                     + (natOfDigits (d2.map digitVal) : Rat) / (10 : Rat) ^ d2.length
+      match litExponent r3 with
+      | none => none
+      | some (none, r4) => some (sign m, r4)
+      | some (some e, r4) => some (sign (m * (10 : Rat) ^ e), r4)
   | _ =>
     if d1.isEmpty then none
-    else if d1.length > 4300 then none          -- int literal beyond sys.get_int_max_str_digits()
-    else if d1.head? = some '0' && d1.any (· ≠ '0') then none   -- leading zeros: SyntaxError
-    else some (sign (natOfDigits (d1.map digitVal) : Rat), r1)
+    else
+      let m : Rat := (natOfDigits (d1.map digitVal) : Rat)
+      match litExponent r1 with
+      | none => none
+      | some (some e, r4) => some (sign (m * (10 : Rat) ^ e), r4)   -- a float literal: leading zeros allowed
+      | some (none, r4) =>
+        if d1.length > 4300 then none          -- int literal beyond sys.get_int_max_str_digits()
+        else if d1.head? = some '0' && d1.any (· ≠ '0') then none   -- leading zeros: SyntaxError
+        else some (sign m, r4)
 
 /-- one list item / top-level literal: a quoted string without escapes, or a number -/
 def itemLit (s : Str) : Option (Item × Str) :=
